@@ -250,7 +250,7 @@ E0, S0 = (P.EVar(0),), (P.SVar(0),)
 
 RAW_EVENTS = [
     ('evar 0', ev_push('evar', 0)), ('evar 1', ev_push('evar', 1)), ('svar 0', ev_push('svar', 0)),
-    ('symbol a', ev_push('symbol', 'a')), ('symbol b', ev_push('symbol', 'b')),
+    ('symbol a', ev_push('symbol', 'a')), ('symbol 1', ev_push('symbol', '1')),   # a numeral as NAME
     ('metavar 0', ev_push('metavar', 0)), ('metavar 1', ev_push('metavar', 1)), ('metavar 10', ev_push('metavar', 10)),
     ('metavar 0 e_fresh x0', ev_push('metavar', 0, E0)), ('metavar 1 s_fresh X0', ev_push('metavar', 1, (), S0)),
     ('metavar 0 positive X0', ev_push('metavar', 0, (), (), S0)),
@@ -274,7 +274,7 @@ RAW_EVENTS = [
 MACRO_POOL = [
     P.Implies(P.MetaVar(0), P.MetaVar(0)), P.Exists(0, P.EVar(0)), P.neg(P.MetaVar(0)), P._and(P.MetaVar(0), P.EVar(1)),
     P.ESubst(P.MetaVar(0), P.EVar(0), P.EVar(1)), P.Mu(0, P.SVar(0)), P.top(), P.MetaVar(1, e_fresh=(P.EVar(0),)),
-    P.App(P.Symbol('a'), P.EVar(0)), P.equiv(P.MetaVar(0), P.MetaVar(1)), P.Implies(P.Symbol('a'), P.Symbol('b')),
+    P.App(P.Symbol('a'), P.EVar(0)), P.equiv(P.MetaVar(0), P.MetaVar(1)), P.Implies(P.Symbol('1'), P.Symbol('a')),
     P.SSubst(P.MetaVar(0), P.SVar(0), P.EVar(0)),
     P.Instantiate(P.Implies(P.MetaVar(0), P.MetaVar(1)), frozendict({1: P.EVar(0), 0: P.Symbol('a')})),
 ]
